@@ -200,6 +200,11 @@ func (l *DList[T]) Shift() *DoubleNode[T] {
 	} else {
 		head = head.next
 		l.DoubleNode = *head
+		// The second node was copied into the list itself: it is the first one now.
+		l.prev = nil
+		if l.next != nil {
+			l.next.prev = &l.DoubleNode
+		}
 	}
 
 	return &node
